@@ -37,6 +37,12 @@ def c01_batches(tier):
         if q:
             bs.append(B("table-%s-spqlios-fma-debug" % spec, "gates", "spqlios-fma", "debug", 3, spec=spec, mode="table", nkeys=1, stats=0,
                         weight=60, det_count=1))
+    # input dimension larger than the ring degree (gadget and noise levels of the default 128-bit set with n = 1100 and n = 1025)
+    for be in BACKENDS:
+        for nn in (1100, 1025):
+            bs.append(B("table-n%d-%s-optim" % (nn, be), "gates", be, "optim", max(2, (4 if q else 40) / SPEED[be]),
+                        spec="S:n%d:N1024:k1:l3:B7:t8:b2:aks3.0517578125e-05:abk2.98023223876953125e-08:amax0.012467" % nn, mode="table", nkeys=1, stats=0,
+                        weight=60 * SPEED[be], det_count=1, max_procs=2))
     return bs
 
 
